@@ -109,16 +109,29 @@ def grid_class(system):
 def build_grid(spec):
     import hcipy
     cd = np.dtype(spec.get('cdtype', 'float64')).newbyteorder(spec.get('cborder') or '=')
+    # physical scale of the coordinates: a power of two (exact), e.g. 2**-20 = a beam of micrometres written in metres
+    cs = 1 if cd.kind == 'i' else 2.0 ** int(spec.get('cscale') or 0)
     if spec['kind'] == 'regular':
         if cd.kind == 'i' or spec.get('cborder') in ('<', '>'):
-            coords = hcipy.RegularCoords(np.array(spec['delta'], dtype=cd), list(spec['dims']), np.array(spec['zero'], dtype=cd))
+            coords = hcipy.RegularCoords(np.array(spec['delta'], dtype=cd) * cs, list(spec['dims']), np.array(spec['zero'], dtype=cd) * cs)
         else:
-            coords = hcipy.RegularCoords(list(spec['delta']), list(spec['dims']), list(spec['zero']))
+            coords = hcipy.RegularCoords([d * cs for d in spec['delta']], list(spec['dims']), [z * cs for z in spec['zero']])
     elif spec['kind'] == 'separated':
-        coords = hcipy.SeparatedCoords([np.array(a, dtype=cd) for a in spec['axes']])
+        coords = hcipy.SeparatedCoords([np.array(a, dtype=cd) * cs for a in spec['axes']])
     else:
-        coords = hcipy.UnstructuredCoords([np.array(a, dtype=cd) for a in spec['axes']])
+        coords = hcipy.UnstructuredCoords([np.array(a, dtype=cd) * cs for a in spec['axes']])
     w = spec.get('weights')
+    if w is not None and w['t'] == 'autox':
+        # explicitly given weights that are a multiple of the automatic ones (quadrature weights, apodised weights, ...):
+        # same shape as the automatic weights and, for factors near one, within any tolerance of them
+        try:
+            with warnings.catch_warnings():
+                warnings.simplefilter('ignore')
+                auto = grid_class('polar' if spec['system'] == 'polar' else 'cartesian')(copy.deepcopy(coords)).weights
+            auto = np.asarray(auto, dtype='float64') * float(w['f'])
+        except Exception:  # noqa  (no automatic weights for this grid: a plain scalar)
+            auto = np.asarray(float(w['f']))
+        w = {'t': 'built', 'v': float(auto) if auto.ndim == 0 else auto.copy()}
     if w is None or w['t'] == 'auto':
         weights = None
     elif w['t'] == 'pyfloat':
@@ -131,13 +144,15 @@ def build_grid(spec):
         weights = with_border(np.array(w['v'], dtype=w['dtype']), w.get('border'))
     elif w['t'] == 'list':
         weights = [float(x) for x in w['v']]
+    elif w['t'] == 'built':
+        weights = w['v']
     else:
         raise MachineryError('weights spec')
     cls = grid_class(spec['system'])
     g = cls(coords, weights)
     if spec.get('reversed'):
         g = g.reversed()        # separated/unstructured: the stored arrays become negative-stride views
-    if w is not None and w['t'] == 'auto':
+    if spec.get('weights') is not None and spec['weights']['t'] == 'auto':
         with warnings.catch_warnings():
             warnings.simplefilter('ignore')
             try:
@@ -296,6 +311,15 @@ def _mod_basis(b, op):
         b.transformation_matrix = scipy.sparse.csc_matrix(m) if b.is_sparse else m
     elif k == 'drop-last':
         b.transformation_matrix = b.transformation_matrix[..., :-1] if b.num_modes > 1 else b.transformation_matrix
+    elif k == 'set-format':
+        # the same matrix in another scipy.sparse storage format, assigned through the public setter (which stores what it
+        # is given; the constructor, append and extend always store CSC).  Dense 2-D bases become sparse this way.
+        T = b.transformation_matrix
+        if not scipy.sparse.issparse(T) and T.ndim != 2:
+            raise TypeError('tensor basis')
+        if not scipy.sparse.issparse(T):
+            T = np.ascontiguousarray(T).astype(T.dtype.newbyteorder('='))
+        b.transformation_matrix = getattr(scipy.sparse, op[1])(T)
     elif k == 'imul':
         T = b.transformation_matrix
         if T.dtype.kind == 'b':
@@ -365,11 +389,13 @@ def build(spec, log=None):
 
 
 GRID_MODS = [['scale', 2.0], ['scale', 0.5], ['scale', -2.0], ['shift', 0.5], ['reverse'], ['weights-array'], ['weights-scalar'],
-             ['weights-none'], ['weights-touch']]
+             ['weights-none'], ['weights-touch'], ['weights-touch'], ['scale', 'odd'], ['scale', 'odd']]
 FIELD_MODS = [['imul'], ['iadd'], ['setitem', 1], ['setslice'], ['astype', 'float32'], ['astype', 'int32'], ['regrid-scaled'],
               ['regrid-reversed'], ['grid-scale'], ['grid-weights']]
 BASIS_MODS = [['append', 1], ['append-field', 2], ['extend', 3, 2], ['extend-basis', 4, 3], ['set-tm', 5, 2], ['drop-last'], ['imul'],
-              ['grid-scale'], ['set-grid']]
+              ['grid-scale'], ['set-grid'], ['set-format', 'csr_matrix'], ['set-format', 'csr_matrix'], ['set-format', 'any']]
+SPARSE_FORMATS = ['csr_matrix', 'csc_matrix', 'coo_matrix', 'bsr_matrix', 'lil_matrix', 'dia_matrix', 'dok_matrix', 'csr_array', 'coo_array',
+                  'csc_array']
 
 
 def gen_mods(rng, what):
@@ -385,6 +411,10 @@ def gen_mods(rng, what):
             op[2] = int(rng.integers(1, 4))
         if op[0] == 'setitem':
             op[1] = int(rng.integers(0, 50))
+        if op[0] == 'set-format' and op[1] == 'any':
+            op[1] = SPARSE_FORMATS[int(rng.integers(0, len(SPARSE_FORMATS)))]
+        if op[0] == 'scale' and op[1] == 'odd':
+            op[1] = [0.7, 1.0 / 3.0, 1.1, 2e-7][int(rng.integers(0, 4))]
         out.append(op)
     return out
 
@@ -458,9 +488,14 @@ def gen_grid(rng, big=False, top_level=False):
                            'v': [float(x) / 8.0 for x in rng.integers(1, 40, size=size)]}
     elif r < 0.85:
         spec['weights'] = {'t': 'list', 'v': [float(x) / 8.0 for x in rng.integers(1, 40, size=size)]}
-    else:
+    elif r < 0.93:
         # automatic weights, materialised before writing (unstructured grids have none: warning + 1)
         spec['weights'] = {'t': 'auto'}
+    else:
+        # explicit weights = factor x the automatic ones
+        spec['weights'] = {'t': 'autox', 'f': AUTOX[int(rng.integers(0, len(AUTOX)))]}
+    if rng.random() < 0.15 and cd != 'int64':
+        spec['cscale'] = int(rng.choice([-20, -30, -40, -14, 10]))
     spec['reversed'] = bool(rng.random() < 0.12)
     spec['cborder'] = gen_border(rng)
     spec['mods'] = gen_mods(rng, 'grid') if top_level else []
@@ -469,6 +504,7 @@ def gen_grid(rng, big=False, top_level=False):
     return spec
 
 
+AUTOX = [0.25, 1.0 + 2.0 ** -30, 1.0 - 2.0 ** -20, 4.0, 1.0, 1.0 + 2.0 ** -52]
 TSHAPES = [[], [], [], [2], [3], [2, 2], [2, 1], [1], [3, 1], [2, 1, 2]]
 
 
@@ -592,6 +628,28 @@ DIRECTED = [
     # round 4: NumPy-scalar weights (asdf stores a plain number: Grid.pyWeights in the model)
     dict(_REG2, weights={'t': 'npfloat', 'v': 2.5}), _f(dict(_SEPR, weights={'t': 'npfloat', 'v': 0.75}), [2]),
     _b(dict(_REG2, weights={'t': 'npfloat', 'v': 1.5}), 'sparse'),
+    # round 5: sparse storage formats assigned through the transformation_matrix setter (D162: CSR written as if CSC)
+    _b(_REG2, 'sparse', mods=[['set-format', 'csr_matrix']]), _b(_UNS2, 'sparse', mods=[['set-format', 'csr_matrix']]),
+    _b(_SEPR, 'sparse', mods=[['set-format', 'csr_matrix']]), _b(_UNS2, 'sparse', nm=4, mods=[['set-format', 'csr_matrix']]),
+    _b(_REG1, 'sparse', nm=4, mods=[['set-format', 'csr_matrix']]), _b(_UNS2, 'sparse', mods=[['set-format', 'bsr_matrix']]),
+    _b(_UNS2, 'sparse', mods=[['set-format', 'coo_matrix']]), _b(_REG2, 'sparse', mods=[['set-format', 'lil_matrix']]),
+    _b(_UNS2, 'sparse', mods=[['set-format', 'dia_matrix']]), _b(_REG2, 'sparse', mods=[['set-format', 'dok_matrix']]),
+    _b(_UNS2, 'sparse', mods=[['set-format', 'csr_array']]), _b(_UNS2, 'dense', mods=[['set-format', 'csr_matrix']]),
+    _b(_REG2, 'dense', mods=[['set-format', 'csc_matrix']]), _b(_UNS2, 'sparse', mods=[['set-format', 'csr_matrix'], ['append', 1]]),
+    _b(_UNS2, 'sparse', dt='float32', mods=[['append', 1], ['set-format', 'csr_matrix']]), _b(_UNS2, 'sparse', mods=[['set-format', 'csc_array']]),
+    # round 5: small physical scales and explicit weights close to the automatic ones (seeded class C16-8: weights dropped
+    # from the dictionary when within a tolerance of the automatic ones), weights cached before an in-place scale()
+    dict(_REG2, cscale=-20, weights={'t': 'autox', 'f': 0.25}), dict(_SEPR, cscale=-20, weights={'t': 'autox', 'f': 0.25}),
+    dict(_SEPR, cscale=-30, weights={'t': 'array', 'dtype': 'float64', 'v': [1.0, 2.0, 3.0, 4.0, 5.0, 6.0]}),
+    dict(_REG2, weights={'t': 'autox', 'f': 1.0 + 2.0 ** -30}), dict(_SEPR, weights={'t': 'autox', 'f': 1.0 - 2.0 ** -20}),
+    dict(_SEPP, weights={'t': 'autox', 'f': 1.0 + 2.0 ** -30}), dict(_REG3, weights={'t': 'autox', 'f': 1.0 + 2.0 ** -52}),
+    dict(_REG2, cscale=-14, weights={'t': 'pyfloat', 'v': 2.0 ** -40}), dict(_REG2, cscale=-30), dict(_SEP3, cscale=-40), dict(_UNS2, cscale=-30),
+    _f(dict(_REG2, cscale=-40), [2]), _b(dict(_UNS2, cscale=-30), 'sparse'), dict(_REG2, mods=[['weights-touch'], ['scale', 0.7]]),
+    dict(_g('regular', delta=[0.02, 0.02], dims=[5, 5], zero=[-0.04, -0.04]), mods=[['weights-touch'], ['scale', 0.7]]),
+    dict(_SEPR, mods=[['weights-touch'], ['scale', 1.0 / 3.0]]), dict(_REG2, mods=[['weights-touch'], ['scale', 2e-7]]),
+    dict(_SEPR, weights={'t': 'autox', 'f': 0.25}, mods=[['scale', 2e-7]]),
+    _f(dict(_SEPR, cscale=-20, weights={'t': 'autox', 'f': 0.25}), [2]), _b(dict(_REG2, cscale=-20, weights={'t': 'autox', 'f': 4.0}), 'sparse'),
+    _f(dict(_REG2, weights={'t': 'autox', 'f': 1.0 + 2.0 ** -30}), []), _b(dict(_SEPR, weights={'t': 'autox', 'f': 1.0 - 2.0 ** -20}), 'dense'),
 ]
 
 
@@ -686,10 +744,15 @@ def snapshot(what, x):
         return (type(x).__name__, _raw(np.asarray(x)), snapshot('grid', x.grid))
     T = x._transformation_matrix
     if x.is_sparse:
-        body = ('sparse', T.format, tuple(T.shape), _raw(T.data), _raw(T.indices), _raw(T.indptr))
+        body = ('sparse', type(T).__name__, T.format, tuple(T.shape), T.dtype.str, T.toarray().tobytes()) + tuple(
+            _raw(getattr(T, a)) for a in _SPARSE_ATTRS.get(T.format, ()))
     else:
         body = ('dense', _raw(T))
     return (body, sorted(x.__dict__), snapshot('grid', x.grid))
+
+
+_SPARSE_ATTRS = {'csc': ('data', 'indices', 'indptr'), 'csr': ('data', 'indices', 'indptr'), 'bsr': ('data', 'indices', 'indptr'),
+                 'coo': ('data', 'row', 'col'), 'dia': ('data', 'offsets')}
 
 
 def arrays_of(what, x):
@@ -706,7 +769,7 @@ def arrays_of(what, x):
     if what == 'field':
         return [np.asarray(x)] + arrays_of('grid', x.grid)
     T = x._transformation_matrix
-    return ([T.data, T.indices, T.indptr] if x.is_sparse else [T]) + arrays_of('grid', x.grid)
+    return ([getattr(T, a) for a in _SPARSE_ATTRS.get(T.format, ())] if x.is_sparse else [T]) + arrays_of('grid', x.grid)
 
 
 def shares_memory(what, x, y):
@@ -789,6 +852,94 @@ def getstate_obs(x):
     flat = np.frombuffer(raw, dtype=dt)
     tag = dt.newbyteorder('=').str.lstrip('<>|=')
     return lay, 'ok shape=[%s] dtype=%s fortran=%s raw=%s' % (','.join(str(int(n)) for n in shape), tag, 'T' if isf else 'F', enc_arr(flat))
+
+
+HOOKS = ('__reduce__', '__reduce_ex__', '__getstate__', '__setstate__', '__getnewargs__', '__getnewargs_ex__', '__copy__', '__deepcopy__')
+
+
+def reduce_obs(what, x):
+    """Which pickling hooks the classes of the object define themselves (not inherited from object / ndarray), and whether
+    the default reduction hands over exactly `__dict__`.  Returns a list of findings (empty = as assumed)."""
+    import hcipy
+    out = []
+    objs = [('grid', grid_of(what, x))] if what != 'grid' else [('grid', x)]
+    if what == 'basis':
+        objs.append(('basis', x))
+    for name, o in objs:
+        if o is None:
+            continue
+        for klass in type(o).__mro__:
+            if klass in (object,):
+                continue
+            own = [h for h in HOOKS if h in vars(klass)]
+            if own:
+                out.append('%s: class %s defines %s' % (name, klass.__name__, ','.join(own)))
+        for proto in range(pickle.HIGHEST_PROTOCOL + 1):
+            try:
+                r = o.__reduce_ex__(proto)
+                state = r[2] if len(r) > 2 else None
+                if not (isinstance(state, dict) and state.keys() == o.__dict__.keys() and all(state[k] is o.__dict__[k] for k in state)):
+                    out.append('%s: __reduce_ex__(%d) state is not __dict__' % (name, proto))
+            except Exception as e:  # noqa
+                out.append('%s: __reduce_ex__(%d) raised %s' % (name, proto, type(e).__name__))
+    if what == 'field':
+        # Field defines __reduce__/__getstate__/__setstate__ (modelled: getState / setState); any further hook is unmodelled
+        extra = [h for h in HOOKS if h not in ('__reduce__', '__getstate__', '__setstate__') and any(
+            h in vars(k) for k in type(x).__mro__ if k.__module__.startswith('hcipy'))]
+        if extra:
+            out.append('field: hcipy defines unmodelled pickling hooks %s' % ','.join(extra))
+    return out
+
+
+def _vals_of(what, x):
+    """the array holding the values of a field / the matrix entries of a mode basis (None for grids)"""
+    if what == 'field':
+        return np.asarray(x)
+    if what == 'basis':
+        T = x._transformation_matrix
+        return T.data if hasattr(T, 'indptr') or hasattr(T, 'row') else (np.asarray(T) if isinstance(T, np.ndarray) else None)
+    return None
+
+
+def _num_list(a, n=6):
+    """the first values of an array as exact protocol numbers (real kinds only)"""
+    a = np.asarray(a)
+    if a.dtype.kind not in 'biuf':
+        return '[]'
+    flat = np.ascontiguousarray(a).ravel()[:n]
+    if a.dtype.kind == 'b':
+        return '[' + ','.join('1' if v else '0' for v in flat) + ']'
+    if a.dtype.kind in 'iu':
+        return '[' + ','.join(str(int(v)) for v in flat) + ']'
+    if not np.all(np.isfinite(flat.astype('float64'))):
+        return '[]'
+    return '[' + ','.join(rat(float(v)) for v in flat) + ']'
+
+
+def dtype_obs(obs, what, route, x, y, fn=None):
+    """record, for the model's readDType / fitsCard: the dtype written, the dtype of what was read back through `route`,
+    and for FITS images the BITPIX / BZERO cards and the numbers actually stored in the file"""
+    a, b = _vals_of(what, x), _vals_of(what, y) if y is not None else None
+    if a is None or (y is not None and b is None) or a.dtype.kind not in 'biufc':
+        return
+    rec = {'route': route, 'd': a.dtype.str, 'vals': _num_list(a), 'read': None if y is None else b.dtype.str}
+    if route == 'pickle-object' and rec['read'] is not None:
+        rec['read'] = b.dtype.newbyteorder('=').str        # compared up to byte order (see Route.pickleObject)
+    if fn is not None and route.startswith('fits-image') and y is not None:
+        from astropy.io import fits
+        with fits.open(fn, memmap=False, do_not_scale_image_data=True) as hd:
+            h = hd[0].header
+            rec['card'] = '%d/%d' % (int(h['BITPIX']), int(h.get('BZERO', 0)))
+            raw = np.array(hd[0].data)
+        if what == 'basis':
+            # image axes (mode, tensor..., grid...): bring the stored numbers into the order of the matrix
+            T = x.to_dense().transformation_matrix
+            raw = np.moveaxis(raw.reshape((T.shape[-1],) + tuple(T.shape[:-1])), 0, -1)
+            rec['vals'] = _num_list(T)
+        else:
+            raw = raw.reshape(np.asarray(x).shape)
+        rec['stored'] = _num_list(raw)
+    obs.setdefault('dtypes', []).append(rec)
 
 
 def round_trips(spec, tmpdir):
@@ -888,9 +1039,18 @@ def round_trips(spec, tmpdir):
 
         # dictionary
         tree = None
+        if what == 'basis' and x.is_sparse:
+            # the sparse storage as it is before to_dict (model: SpStore)
+            T0 = x._transformation_matrix
+            obs['spfmt'] = T0.format
+            if T0.format in ('csr', 'csc') and T0.dtype.kind in 'biuf':
+                obs['spraw'] = encode({'data': T0.data, 'indices': T0.indices, 'indptr': T0.indptr, 'shape': [int(n_) for n_ in T0.shape]})
+                obs['spdense'] = enc_arr(T0.toarray())
         try:
             tree = x.to_dict()
             obs['to_dict'] = 'ok'
+            if 'spraw' in obs:
+                obs['sptree'] = encode(tree['transformation_matrix'])
         except Exception as e:  # noqa
             obs['to_dict'] = ERRMAP.get(type(e).__name__, 'other:' + type(e).__name__)
         unchanged('to_dict', 'dict')
@@ -916,6 +1076,7 @@ def round_trips(spec, tmpdir):
                     y = cls.from_dict(tree)
                 obs['dict_tree'] = encode(tree)
                 obs['dict_back'] = encode(y.to_dict())
+                dtype_obs(obs, what, 'dict', x, y)
                 if compare(y, 'to_dict/from_dict', 'dict') and shares_memory(what, x, y):
                     fails.append(('aliasing:%s:dict' % what, 'from_dict(to_dict(x)) shares array memory with x: it is not a separate object'))
             except MachineryError:
@@ -929,18 +1090,42 @@ def round_trips(spec, tmpdir):
             obs['getstate'] = getstate_obs(x)
             unchanged('__getstate__', 'pickle')
         # pickle in memory, deepcopy
-        for route, fn in (('pickle.dumps/loads', lambda o: pickle.loads(pickle.dumps(o))), ('deepcopy', copy.deepcopy)):
+        # every spelling of the in-memory routes: the default protocol, each explicit protocol 0..HIGHEST, protocol 5 with
+        # out-of-band buffers (PEP 574: what joblib / dask / multiprocessing use), deepcopy, copy.copy
+        def _oob(o):
+            bufs = []
+            data = pickle.dumps(o, protocol=5, buffer_callback=bufs.append)
+            obs['oob_buffers'] = len(bufs)
+            # the receiving side gets copies of the buffers (another process); NumPy only hands out contiguous ones
+            return pickle.loads(data, buffers=[bytearray(b.raw()) for b in bufs])
+
+        routes = [('pickle.dumps/loads', lambda o: pickle.loads(pickle.dumps(o)), True), ('deepcopy', copy.deepcopy, False)]
+        for proto in range(pickle.HIGHEST_PROTOCOL + 1):
+            routes.append(('pickle.dumps(protocol=%d)/loads' % proto, (lambda o, p_=proto: pickle.loads(pickle.dumps(o, protocol=p_))), True))
+        routes.append(('pickle.dumps(protocol=5, buffer_callback)/loads(buffers)', _oob, True))
+        routes.append(('copy.copy', copy.copy, False))
+        for route, fn, separate in routes:
             try:
                 with _NewStyle(spec.get('newstyle')):
                     y = fn(x)
-                if what == 'field' and route != 'deepcopy':
+                if what == 'field' and route == 'pickle.dumps/loads':
                     obs['pickle_back'] = encode(y.to_dict())
                     obs['pickle_flag'] = 'f' if np.isfortran(np.asarray(x)) else 'c'
-                if compare(y, route, 'pickle') and route != 'deepcopy' and shares_memory(what, x, y):
+                if route in ('pickle.dumps(protocol=2)/loads', 'pickle.dumps(protocol=5)/loads') and what != 'grid':
+                    # object pickles: kind and item size; the byte order NumPy's unpickling hands back depends on protocol and layout (not modelled)
+                    dtype_obs(obs, what, 'pickle' if what == 'field' else 'pickle-object', x, y)
+                if compare(y, route, 'pickle') and separate and shares_memory(what, x, y):
                     fails.append(('aliasing:%s:pickle' % what, '%s shares array memory with the original' % route))
+                obs['inmem_routes'] = obs.get('inmem_routes', 0) + 1
+            except MachineryError:
+                raise
             except Exception as e:  # noqa
                 fails.append(('%s:pickle:%s' % (what, ck), '%s raised %s: %s' % (route, type(e).__name__, str(e)[:100])))
             unchanged(route, 'pickle')
+        # default pickling (an assumption of the model: a pickle holds the object): the classes that define no pickling hooks
+        # must reduce to (copyreg.__newobj__ / copyreg._reconstructor, ..., state) with state == __dict__, for every protocol
+        obs['reduce'] = reduce_obs(what, x)
+        unchanged('__reduce_ex__', 'pickle')
         # files
         for fmt in FORMATS:
             fam = {'asdf': 'asdf', 'fits': 'fits', 'fits.gz': 'fits', 'pkl': 'pickle'}[fmt]
@@ -955,6 +1140,13 @@ def round_trips(spec, tmpdir):
                 o['w'] = ERRMAP.get(type(e).__name__, 'other:' + type(e).__name__)
                 o['w_msg'] = str(e)[:100]
                 unchanged('a refused write_%s(%s)' % (what, fmt), fam)
+                if fam == 'fits' and o['w'] == 'key' and what != 'grid':
+                    dtype_obs(obs, what, 'fits-image-' + what, x, None)      # KeyError: astropy has no BITPIX for the dtype
+                if os.path.exists(fn):
+                    # "whenever it can be written, reading back succeeds": a refused write that leaves a file has written something
+                    o['left'] = True
+                    fails.append(('refused-write-leaves-file:%s:%s:%s' % (what, fam, ck), 'write_%s(%s) raised %s but left a file of %d bytes behind' % (
+                        what, fmt, type(e).__name__, os.path.getsize(fn))))
                 continue
             unchanged('write_%s(%s)' % (what, fmt), fam)
             if fmt == 'fits':
@@ -986,6 +1178,15 @@ def round_trips(spec, tmpdir):
             if unreg and fam != 'pickle':
                 # the model's theorem (and the stated assumption) say such a file is not readable
                 obs['unregistered_read_ok'] = fmt
+            if what != 'grid':
+                droute = {'asdf': 'asdf', 'pickle': 'pickle' if what == 'field' else 'pickle-object',
+                          'fits': 'fits-tree' if o['img'] in (None, 'N') else 'fits-image-' + what}[fam]
+                try:
+                    dtype_obs(obs, what, droute, x, y, fn)
+                except MachineryError:
+                    raise
+                except Exception as e:  # noqa  (a fault while observing is a broken correspondence, not a crash)
+                    obs.setdefault('dtype_faults', []).append('%s: %s' % (droute, type(e).__name__))
             if compare(y, 'write/read %s' % fmt, fam):
                 read_back[fmt] = y
             unchanged('read_%s(%s)' % (what, fmt), fam)
@@ -1200,6 +1401,19 @@ def model_requests(spec, obs):
         if what == 'field' and 'getstate' in obs:
             lay, exp = obs['getstate']
             reqs.append(('getstate', 'C16 getstate field %s %s' % (lay, obs['dict_tree']), exp))
+    if 'spraw' in obs and 'sptree' in obs:
+        exp = 'ok wf=true dense=%s csrdense=%s tree=%s' % (obs['spdense'], obs['spdense'], obs['sptree'])
+        reqs.append(('spstore', 'C16 spstore %s new %s' % (obs['spfmt'], obs['spraw']), exp))
+        reqs.append(('spstore-old', 'C16 spstore %s old %s' % (obs['spfmt'], obs['spraw']), 'ok wf=true tree=' + obs['sptree']))
+    for rec in obs.get('dtypes', []):
+        tag = rec['d'].lstrip('<>|=')
+        if rec['read'] is None:
+            exp = 'err key'
+        elif 'card' in rec:
+            exp = 'ok read=%s tag=%s holds=true card=%s fits=true stored=%s back=%s' % (rec['read'], tag, rec['card'], rec['stored'], rec['vals'])
+        else:
+            exp = 'ok read=%s tag=%s holds=true' % (rec['read'], tag)
+        reqs.append(('dtype', 'C16 dtype %s %s %s' % (rec['route'], rec['d'], rec['vals']), exp))
     if 'tree' not in obs and 'nogrid_tree' in obs:
         # a mode basis without grid has no dictionary form: every write with a resolvable format is refused with
         # AttributeError (to_dict() runs before the dispatch), in pickle and unknown formats too
@@ -1269,7 +1483,7 @@ def describe(spec):
     else:
         dims = g['dims'] if g['kind'] == 'regular' else [len(a) for a in g['axes']]
         gd = (g['kind'], g['system'], len(dims), g['cdtype'], g.get('cborder'), (g['weights'] or {'t': 'none'})['t'], bool(g['reversed']),
-              'ragged' if len(set(dims)) > 1 else 'square')
+              'ragged' if len(set(dims)) > 1 else 'square', g.get('cscale') or 0)
     mods = tuple(m[0] for m in spec.get('mods') or [])
     if what == 'grid':
         return (what, mods) + gd
@@ -1289,6 +1503,7 @@ def check_spec(ctx, spec, tmpdir, batch):
     if g is not None:
         ctx.count('grid:%s/%s/%dD' % (g['kind'], g['system'], len(g['dims'] if g['kind'] == 'regular' else g['axes'])))
         ctx.count('weights:' + (g['weights'] or {'t': 'none'})['t'])
+        ctx.count('coordinate-scale:2^%d' % int(g.get('cscale') or 0))
         if is_ragged(g):
             ctx.count('grid:separated-ragged')
         if g['reversed']:
@@ -1328,8 +1543,22 @@ def check_spec(ctx, spec, tmpdir, batch):
                                           'model': 'a grid with an unregistered coordinate system is written but not readable'})
     if 'getstate' in obs:
         ctx.count('getstate-layout:' + obs['getstate'][0])
+    for rec in obs.get('dtypes', []):
+        ctx.count('dtype-route:%s:%s' % (rec['route'], 'refused' if rec['read'] is None else ('%s->%s' % (rec['d'], rec['read']))))
+    for fault in obs.get('dtype_faults', []):
+        ctx.disagree('C16 dtype-observation', {'spec': spec, 'impl': fault, 'model': 'the dtype and the FITS cards of every file can be read'})
+    ctx.count('in-memory-routes (pickle protocols 0-5, out-of-band, deepcopy, copy)', obs.get('inmem_routes', 0))
+    if obs.get('oob_buffers'):
+        ctx.count('pickle-out-of-band-buffers', obs['oob_buffers'])
+    for finding in obs.get('reduce') or []:
+        ctx.disagree('C16 default-pickling', {'spec': spec, 'impl': finding,
+                                              'model': 'Grid and ModeBasis define no pickling hooks (a pickle holds __dict__); Field defines __reduce__/__getstate__/__setstate__ only'})
+    if obs.get('reduce') == []:
+        ctx.count('default-pickling-monitored:' + what)
     if 'nogrid_tree' in obs:
         ctx.count('basis-without-grid:sent-to-model')
+    if 'spfmt' in obs:
+        ctx.count('sparse-storage-at-write:%s%s' % (obs['spfmt'], ' (sent to the model)' if 'spraw' in obs else ''))
     for o in obs.get('named', []):
         ctx.count('named-file:%s:%s' % ('fmt=' + (o['fmt'] or 'None'), 'written as %s, read %s' % (o['fam'], o['r']) if o['w'] == 'ok' else 'write-refused-' + o['w']))
         ctx.count('named-file:name:' + o['name'])
@@ -1412,6 +1641,124 @@ def check_ravel(ctx, rng, n, batch):
             ctx.count('ravel/unravel:empty-axis')
 
 
+PLAIN_DTYPES = FIELD_DTYPES
+
+
+def plain_case(ctx, case, tmpdir, batch):
+    """write_fits / read_fits on a plain array (every dtype, byte order, layout; .fits and .fits.gz; the `shape` argument):
+    whenever it can be written, reading back gives equal values of the same shape and dtype up to byte order, the array written
+    is not altered, a refused write leaves no file; dtype read and the BITPIX / BZERO cards go to the model (fitsCard)."""
+    import hcipy
+    ok = True
+    shape = tuple(case['shape'])
+    n = int(np.prod(shape))
+    a = apply_layout(with_border(_values(case['dtype'], case['vals'][:n]).reshape(shape), case.get('border')), case.get('layout', 'C'))
+    before = _raw(a)
+    fn = os.path.join(tmpdir, 'plain.' + case['ext'])
+    if os.path.exists(fn):
+        os.remove(fn)
+    key = 'plain-array:%s' % case['ext']
+    newshape = case.get('newshape')
+    try:
+        with warnings.catch_warnings():
+            warnings.simplefilter('ignore')
+            hcipy.write_fits(a, fn, shape=newshape)
+    except Exception as e:  # noqa
+        ctx.count('plain-array:write-refused-' + type(e).__name__)
+        if os.path.exists(fn):
+            ctx.violation('refused-write-leaves-file:' + key, 'write_fits raised %s but left a file behind' % type(e).__name__, {'plain': case})
+            ok = False
+        if _raw(a) != before:
+            ctx.violation('write-alters:' + key, 'a refused write_fits altered the array', {'plain': case})
+            ok = False
+        if isinstance(e, KeyError):
+            batch.append((None, 'dtype', 'C16 dtype fits-image-field %s %s' % (a.dtype.str, _num_list(a)), 'err key'))
+        else:
+            ctx.disagree('C16 plain-array', {'case': case, 'impl': type(e).__name__ + ': ' + str(e)[:80], 'model': 'only dtypes without BITPIX are refused'})
+        return ok
+    if _raw(a) != before:
+        ctx.violation('write-alters:' + key, 'write_fits altered the array being written', {'plain': case})
+        ok = False
+    try:
+        with warnings.catch_warnings():
+            warnings.simplefilter('ignore')
+            b = hcipy.read_fits(fn)
+    except Exception as e:  # noqa
+        ctx.violation(key, 'write_fits succeeded but read_fits raised %s: %s' % (type(e).__name__, str(e)[:80]), {'plain': case})
+        return False
+    want = a.reshape(newshape) if newshape is not None else a
+    if _arr_sig(b) != _arr_sig(want):
+        ctx.violation(key, 'array read back through write_fits/read_fits differs (dtype up to byte order, shape or values)', {'plain': case})
+        ok = False
+    ctx.count('plain-array:%s:written+read' % case['ext'])
+    ctx.count('plain-array-dtype:%s->%s' % (a.dtype.str, b.dtype.str))
+    try:
+        from astropy.io import fits
+        with fits.open(fn, memmap=False, do_not_scale_image_data=True) as hd:
+            h = hd[0].header
+            card = '%d/%d' % (int(h['BITPIX']), int(h.get('BZERO', 0)))
+            raw = np.array(hd[0].data).reshape(a.shape)
+        exp = 'ok read=%s tag=%s holds=true card=%s fits=true stored=%s back=%s' % (b.dtype.str, a.dtype.str.lstrip('<>|='), card, _num_list(raw), _num_list(a))
+        batch.append((None, 'dtype', 'C16 dtype fits-image-field %s %s' % (a.dtype.str, _num_list(a)), exp))
+    except MachineryError:
+        raise
+    except Exception as e:  # noqa
+        ctx.disagree('C16 dtype-observation', {'case': case, 'impl': type(e).__name__, 'model': 'the cards of every FITS file can be read'})
+    return ok
+
+
+def gen_plain(rng):
+    shape = [int(rng.integers(1, 5)) for _ in range(int(rng.integers(1, 4)))]
+    n = int(np.prod(shape))
+    case = {'shape': shape, 'dtype': PLAIN_DTYPES[int(rng.integers(0, len(PLAIN_DTYPES)))], 'vals': [int(x) for x in rng.integers(-12, 13, size=n)],
+            'border': gen_border(rng), 'layout': str(rng.choice(LAYOUTS)), 'ext': 'fits.gz' if rng.random() < 0.4 else 'fits'}
+    if rng.random() < 0.25:
+        case['newshape'] = [n]
+    return case
+
+
+def gridless_case(ctx, case, tmpdir):
+    """a Field without grid: has no dictionary form, so no writer accepts it (AttributeError before anything is written, no file
+    left behind); the in-memory routes return an equal field without grid"""
+    import hcipy
+    ok = True
+    with _NewStyle(case.get('newstyle')):
+        f = hcipy.Field(apply_layout(_values(case['dtype'], case['vals'][:int(np.prod(case['shape']))]).reshape(case['shape']), case.get('layout', 'C')), None)
+    ref = _arr_sig(np.asarray(f))
+    for proto in list(range(pickle.HIGHEST_PROTOCOL + 1)) + ['deepcopy']:
+        try:
+            with _NewStyle(case.get('newstyle')):
+                y = copy.deepcopy(f) if proto == 'deepcopy' else pickle.loads(pickle.dumps(f, protocol=proto))
+            if _arr_sig(np.asarray(y)) != ref or y.grid is not None or type(y) is not type(f):
+                ctx.violation('field:pickle:no-grid', 'a field without grid read back through pickle (%s) differs' % proto, {'gridless': case})
+                ok = False
+        except Exception as e:  # noqa
+            ctx.violation('field:pickle:no-grid', 'pickling a field without grid (%s) raised %s' % (proto, type(e).__name__), {'gridless': case})
+            ok = False
+    for ext in FORMATS:
+        fn = os.path.join(tmpdir, 'nogrid.' + ext)
+        if os.path.exists(fn):
+            os.remove(fn)
+        try:
+            hcipy.write_field(f, fn)
+            try:
+                with _NewStyle(case.get('newstyle')):
+                    y = hcipy.read_field(fn)
+                if _arr_sig(np.asarray(y)) != ref:
+                    ctx.violation('field:%s:no-grid' % FAM_OF[ext], 'a field without grid was written and read back with other values', {'gridless': case})
+                    ok = False
+            except Exception as e:  # noqa
+                ctx.violation('field:%s:no-grid' % FAM_OF[ext], 'a field without grid was written but reading raised ' + type(e).__name__, {'gridless': case})
+                ok = False
+            ctx.count('field-without-grid:%s:written' % ext)
+        except Exception as e:  # noqa
+            ctx.count('field-without-grid:%s:write-refused-%s' % (ext, type(e).__name__))
+            if os.path.exists(fn):
+                ctx.violation('refused-write-leaves-file:field:%s:no-grid' % FAM_OF[ext], 'write_field raised %s but left a file behind' % type(e).__name__, {'gridless': case})
+                ok = False
+    return ok
+
+
 def check_names(ctx, rng, n, batch):
     """_guess_file_format on generated names vs the model's guessFormat"""
     import sys
@@ -1455,6 +1802,12 @@ def run(ctx):
                 '(write status, format found in the file by its magic bytes, read status, object read); stream guess: _guess_file_format on generated names; '
                 'stream chain: the last object read after each A>B>C chain of files (or the refusal that ended it) vs gridChain / fieldChain; '
                 'ravel/unravel now with NumPy\'s refusals (out of bounds, wrong length, empty axis). '
+                'Round 5: in-memory routes in every spelling (pickle protocols 0-5, protocol 5 with out-of-band buffers, deepcopy, copy.copy); '
+                'coordinate scales 2^k (k = -40 .. 10) and explicit weights that are a multiple of the automatic ones, non-dyadic in-place scale() after the '
+                'weights were cached; sparse storage formats assigned through the transformation_matrix setter (csr, csc, coo, bsr, lil, dia, dok; matrices and arrays); '
+                'plain arrays through write_fits / read_fits; fields without grid; a refused write must leave no file; stream dtype: the dtype read back through '
+                'every route, the BITPIX / BZERO cards and the numbers stored in every image HDU vs readDType / fitsCard; stream spstore: the raw arrays of the stored '
+                'sparse matrix -> the real to_dict tree vs SpStore.toCsc; monitor default-pickling: Grid and ModeBasis define no pickling hooks and reduce to __dict__. '
                 'Non-trivial = more than one grid point; distinct by the full description tuple.')
     ctx.assumptions += ['asdf, astropy.io.fits and pickle store and return arrays faithfully (exercised, not proved); for asdf files and grid '
                         'FITS files this is the Lean hypothesis AsdfFaithful, monitored on every file written (stream "file"): the tree '
@@ -1463,7 +1816,9 @@ def run(ctx):
                         'Grid._add_coordinate_system (generated as system "other") is written by asdf/fits but read_grid raises KeyError; '
                         'theorem grid_file_readable_iff states this exception; the check verifies it happens and does not report it',
                         'values are finite and exactly representable (no NaN/inf sent to the model)',
-                        'dtype equality is taken up to byte order: FITS images come back big endian']
+                        'dtype equality is taken up to byte order: FITS images come back big endian (which byte order comes back through which route '
+                        'is modelled by readDType and compared on every read)',
+                        'Grid and ModeBasis are pickled by Python\'s default mechanism (no hooks in hcipy): monitored on every object and protocol']
     rng = ctx.rng
     big = ctx.tier == 'thorough'
     ng, nf, nb = ctx.scale((20, 45, 40), (350, 700, 600))
@@ -1496,16 +1851,31 @@ def run(ctx):
     with tempfile.TemporaryDirectory(prefix='c16_') as tmpdir:
         for spec in specs:
             check_spec(ctx, spec, tmpdir, batch)
+        plains = [{'shape': [2, 3], 'dtype': dt, 'vals': _SEQ, 'border': bo, 'layout': 'C', 'ext': ext}
+                  for dt in PLAIN_DTYPES for bo, ext in (('=', 'fits'), ('>', 'fits.gz'))]
+        plains += [{'shape': [2, 3], 'dtype': 'float64', 'vals': _SEQ, 'layout': 'F', 'ext': 'fits'},
+                   {'shape': [2, 3], 'dtype': 'uint16', 'vals': _SEQ, 'layout': 'neg', 'ext': 'fits.gz', 'newshape': [6]}]
+        plains += [gen_plain(rng) for _ in range(ctx.scale(30, 600))]
+        for case in plains:
+            plain_case(ctx, case, tmpdir, batch)
+        for case in [{'shape': [4], 'dtype': 'float64', 'vals': _SEQ}, {'shape': [2, 3], 'dtype': 'int16', 'vals': _SEQ, 'layout': 'F'},
+                     {'shape': [2, 3], 'dtype': 'complex128', 'vals': _SEQ, 'newstyle': True}]:
+            gridless_case(ctx, case, tmpdir)
     check_ravel(ctx, rng, ctx.scale(50, 1000), batch)
     check_names(ctx, rng, ctx.scale(150, 3000), batch)
     out = ctx.model([b[2] for b in batch])
     old_agree = old_total = 0
     gold_agree = gold_total = 0
     bad_differs = bad_total = bad_lazy = 0
+    sp_agree = sp_total = 0
     for (spec, label, line, exp), resp in zip(batch, out):
         if label.startswith('fits-old'):
             old_total += 1
             old_agree += (canon_scalars(resp) == canon_scalars(exp))
+            continue
+        if label == 'spstore-old':
+            sp_total += 1
+            sp_agree += (canon_answer(resp) == canon_answer(exp))
             continue
         if label == 'gridold' or label.startswith('file-old'):
             gold_total += 1
@@ -1526,6 +1896,8 @@ def run(ctx):
             resp, exp = canon_scalars(resp), canon_scalars(exp)
         if label.startswith('file-') or label == 'todict-st':
             resp, exp = canon_answer(resp), canon_answer(exp)
+        if label == 'spstore':
+            resp, exp = canon_answer(resp), canon_answer(exp)
         if label in ('filert', 'chain'):
             resp, exp = canon_answer(canon_scalars(resp)), canon_answer(canon_scalars(exp))
         if resp != exp:
@@ -1533,10 +1905,14 @@ def run(ctx):
         ctx.count('model-stream:' + label.split(':')[0])
     ctx.extra['impl_agrees_with_model_of_unrepaired_fits_paths'] = '%d/%d' % (old_agree, old_total)
     ctx.extra['impl_agrees_with_model_of_unrepaired_grid_registry_D161'] = '%d/%d' % (gold_agree, gold_total)
+    ctx.extra['impl_agrees_with_model_of_unrepaired_sparse_to_dict_D162'] = '%d/%d' % (sp_agree, sp_total)
     ctx.extra['bad_to_dict_model_told_apart'] = '%d of %d objects (%d had _weights None)' % (bad_differs, bad_total, bad_lazy)
 
 
 def replay(ctx, case):
+    if 'plain' in case or 'gridless' in case:
+        with tempfile.TemporaryDirectory(prefix='c16_') as tmpdir:
+            return plain_case(ctx, case['plain'], tmpdir, []) if 'plain' in case else gridless_case(ctx, case['gridless'], tmpdir)
     with tempfile.TemporaryDirectory(prefix='c16_') as tmpdir:
         obs, fails = round_trips(case['spec'], tmpdir)
     for key, text in fails:
